@@ -50,11 +50,40 @@ def cone(facts, root):
     return seen
 
 
+def _move_chain(b, L):
+    """[L, X1, X2, ..]: locals the value created in L is moved through wholesale (`X = move Y`, X having
+    no other definition)."""
+    chain = [L]
+    ty = b.local_ty(L)
+    changed = True
+    while changed:
+        changed = False
+        for loc, st in b.iter_stmts():
+            if st["k"] != "assign" or st["place"]["proj"] or st["rv"]["k"] != "use":
+                continue
+            op = st["rv"]["op"]
+            x = st["place"]["local"]
+            if op["k"] != "move" or op["place"]["proj"] or op["place"]["local"] != chain[-1] or x in chain or b.local_ty(x) != ty:
+                continue
+            whole = [1 for l2, k in b.reaching().all_sites(x) if k == "whole"]
+            if len(whole) == 1:
+                chain.append(x)
+                changed = True
+                break
+    return chain
+
+
 class Site:
     """One clone site: the tracked local and what happens to it."""
 
     def __init__(self, an, body, ex, bb, L):
-        self.an, self.b, self.ex, self.bb, self.L = an, body, ex, bb, L
+        self.an, self.b, self.ex, self.bb = an, body, ex, bb
+        # the object may be handed from local to local by plain moves (`let nb = helper(board)` with the
+        # helper inlined: its own local, its return place, the caller's local): one object, several names
+        self.Ls = _move_chain(body, L)
+        named = [x for x in self.Ls if x in body.names]
+        L = named[-1] if named else self.Ls[-1]
+        self.L = L
         self.loc = body.term_loc(bb)
         t = body.term(bb)
         src = operand_alias(body, t["args"][0])
@@ -74,21 +103,34 @@ class Site:
 
     def _collect(self):
         b, ex, L = self.b, self.ex, self.L
+        Ls = set(self.Ls)
         for loc, st in b.iter_stmts():
-            if st["k"] == "assign" and st["place"]["local"] == L and st["place"]["proj"]:
+            if st["k"] == "assign" and st["place"]["local"] in Ls and st["place"]["proj"]:
                 path = tuple(e.get("name", e["k"]) for e in st["place"]["proj"])
                 self.events.setdefault(loc, []).append(("write", path, ex.rvalue(st["rv"], loc)))
+            elif st["k"] == "assign" and st["place"]["proj"] and st["place"]["proj"][0]["k"] == "deref" and st["place"]["local"] not in Ls:
+                # a write through a pointer to the object (`(*p).field = v` with `p = &mut L`: the body of
+                # an inlined `&mut self` helper)
+                from wa.mir import alias_of as _ao
+                r, mode, pr0 = _ao(b, st["place"]["local"])
+                if r in Ls and mode == "ref":
+                    pj = list(pr0) + list(st["place"]["proj"][1:])
+                    if pj:
+                        path = tuple(e.get("name", e["k"]) for e in pj)
+                        self.events.setdefault(loc, []).append(("write", path, ex.rvalue(st["rv"], loc)))
         for bb, t in b.iter_calls():
             loc = b.term_loc(bb)
             callee = callee_of(t)
             for i, a in enumerate(t["args"]):
                 al = operand_alias(b, a)
+                if al is not None and al[0] in Ls:
+                    al = (L, al[1], al[2])
                 if al is not None and al[0] != L and not al[2]:
                     # the object may have been moved into another local (out of the `Option` a helper
                     # handed it back in): a reference to / move of that local is one of the object
                     from wa.mir import alias_of as _ao
                     r2 = _ao(b, al[0])
-                    if r2[1] == "val" and not r2[2] and r2[0] == L and al[0] != L:
+                    if r2[1] == "val" and not r2[2] and r2[0] in Ls and al[0] != L:
                         al = (L, al[1], al[2])
                 if al is None or al[0] != L:
                     continue
@@ -107,7 +149,7 @@ class Site:
             # publishing a copy of the tracked object (`v.push(L.clone())`) publishes its state too
             if callee and callee.endswith(PUSH_SUFFIX) and len(t["args"]) == 2:
                 e = strip_refs(ex.operand(t["args"][1], loc))
-                if e[0] == "call" and e[1] == CLONE and root_local(e[2][0]) == L and strip_refs(e[2][0])[0] == "var":
+                if e[0] == "call" and e[1] == CLONE and root_local(e[2][0]) in Ls and strip_refs(e[2][0])[0] == "var":
                     self.events.setdefault(loc, []).append(("moved", callee, 1))
                     if (loc, "push", callee) not in self.publishes:
                         self.publishes.append((loc, "push", callee))
@@ -122,7 +164,7 @@ class Site:
                 d, neg = d[2], not neg
             if d[0] == "call" and d[1] == IS_CHECK and len(d[2]) == 2:
                 r = d[2][0]
-                if r[0] == "ref" and root_local(r) == L and strip_refs(r)[0] == "var":
+                if r[0] == "ref" and root_local(r) in Ls and strip_refs(r)[0] == "var":
                     false_targets = [tg for v, tg in t["cases"] if v == 0]
                     true_target = t["otherwise"]
                     if neg:
@@ -568,6 +610,49 @@ def r2_4(ctx):
     ctx.floor("corner/king right obligations", n, 12)
 
 
+def _target_row_source(facts, to, mover, colours):
+    """`to` is `(f(piece, row, col, ..) as Some).0` for a crate-local f: if, on f specialised to a piece of
+    colour `mover`, every returned `Some(Point(r, c))` has r == <usize parameter k> + dir(mover), return
+    the caller's expression for parameter k (the row one step behind the target as seen by the mover)."""
+    from wa.linear import linear
+    t = strip_refs(to)
+    if not (t[0] == "field" and t[2] == "0" and t[1][0] == "downcast" and t[1][2] == "Some" and t[1][1][0] == "call"):
+        return None
+    call = t[1][1]
+    if not facts.has_body(call[1]):
+        return None
+    cb = facts.body(call[1])
+    pp = [i for i in range(1, cb.arg_count + 1) if cb.local_ty(i) == "board::Piece"]
+    if len(pp) != 1:
+        return None
+    col_e = ("field", ("arg", pp[0]), "color")
+    b2, ex2, _ = specialise(cb, {col_e: ("eq", mover)}, {col_e: colours})
+    src = set()
+    nsome = 0
+    for loc, st in b2.iter_stmts():
+        if st["k"] != "assign" or st["rv"]["k"] != "aggregate" or st["rv"].get("adt") != "std::option::Option" or st["rv"].get("variant") != "Some":
+            continue
+        if not b2.local_ty(st["place"]["local"]).startswith("std::option::Option<board::Point"):
+            continue
+        e = ex2.rvalue(st["rv"], loc)
+        pt = strip_refs(e[3][0])
+        if not (pt[0] == "agg" and pt[1] == "board::Point" and len(pt[3]) == 2):
+            return None
+        lr = linear(pt[3][0])
+        if lr is None or len(lr[0]) != 1 or lr[1] != chess.PAWN[mover]["dir"]:
+            return None
+        (k, c), = lr[0].items()
+        k = strip_refs(k)
+        if c != 1 or k[0] != "arg":
+            return None
+        nsome += 1
+        src.add(k[1])
+    if nsome == 0 or len(src) != 1:
+        return None
+    k = next(iter(src))
+    return strip_refs(call[2][k - 1])
+
+
 def r2_7(ctx):
     """Move identity: last_move names exactly the move that move_piece made (same from/to values);
     the en-passant removal square is one step behind the target as seen by the mover; promote_pawn
@@ -619,6 +704,11 @@ def r2_7(ctx):
                         if len(idx) == 2:
                             lr, lc = linear(idx[0]), linear(idx[1])
                             ok1 = lr is not None and lc is not None and _ck(lr[0]) == {canon(("field", to, "0")): 1} and lr[1] == -chess.PAWN[mover]["dir"] and _ck(lc[0]) == {canon(("field", to, "1")): 1} and lc[1] == 0
+                            if not ok1 and lr is not None and lc is not None and _ck(lc[0]) == {canon(("field", to, "1")): 1} and lc[1] == 0 and lr[1] == 0 and len(lr[0]) == 1:
+                                # "beside the capturer": the row is the row the target was computed from, and the
+                                # function that computed the target returns (that row + dir, ..) for this colour
+                                rel = _target_row_source(ctx.facts, to, mover, colours)
+                                ok1 = rel is not None and _ck(lr[0]) == {canon(rel): 1}
                         okp = okp and ok1
                     ctx.ob("%s:ep-removes-the-passed-pawn:%s" % (site.name, mover), found > 0 and okp, b.where(where),
                            "the square emptied by the en-passant capture is (target.row %+d, target.col) for a %s capturer: one step behind the target%s" % (
